@@ -415,7 +415,43 @@ func PredicateOverlay(dir string, env []string, ov map[string][]byte) map[string
 				if p == nil || !pureRecv(sel.X) {
 					return true
 				}
-				// not inside the body of a predicate that is itself substituted (its text is read from the original)
+				// the names the body uses (constants, nil) mean the same where the call stands: not shadowed there
+				if sc := pk.Types.Scope().Innermost(call.Pos()); sc != nil {
+					captured := false
+					var check func(q *trivialPred, depth int)
+					check = func(q *trivialPred, depth int) {
+						if depth > 3 {
+							return
+						}
+						ast.Inspect(q.body, func(m ast.Node) bool {
+							switch y := m.(type) {
+							case *ast.SelectorExpr:
+								// only the receiver side can be a free identifier
+								if id, ok := y.X.(*ast.Ident); ok && info.Uses[id] == types.Object(q.recv) {
+									return false
+								}
+							case *ast.CallExpr:
+								if sel2, ok := y.Fun.(*ast.SelectorExpr); ok {
+									if q2 := preds[funcOf(info, sel2.Sel)]; q2 != nil {
+										check(q2, depth+1)
+									}
+								}
+								return false
+							case *ast.Ident:
+								if o := info.Uses[y]; o != nil {
+									if _, found := sc.LookupParent(y.Name, call.Pos()); found != o {
+										captured = true
+									}
+								}
+							}
+							return true
+						})
+					}
+					check(p, 0)
+					if captured {
+						return true
+					}
+				}
 				recvText := string(src[tf.Offset(sel.X.Pos()):tf.Offset(sel.X.End())])
 				t, ok := render(p, recvText, 0)
 				if !ok {
@@ -460,4 +496,9 @@ func namedTypeOf(t types.Type) *types.Named {
 	}
 	n, _ := t.(*types.Named)
 	return n
+}
+
+func funcOf(info *types.Info, id *ast.Ident) *types.Func {
+	f, _ := info.Uses[id].(*types.Func)
+	return f
 }
